@@ -19,7 +19,8 @@ import time
 
 VERIF = os.path.dirname(os.path.dirname(os.path.abspath(__file__)))
 REPO = os.environ.get("VF_REPO", "/repo")
-BUILD = os.path.join(VERIF, "build")
+BUILD = os.environ.get("VF_BUILD", os.path.join(VERIF, "build"))
+EVDIR = os.environ.get("VF_EVIDENCE", os.path.join(VERIF, "evidence"))  # seeded-change runs write elsewhere
 RT = os.path.join(VERIF, "rt")
 IR2C = os.path.join(VERIF, "tools", "bin", "ir2c")
 CLANG_FLAGS = ["-std=c++17", "-O1", "-fno-vectorize", "-fno-slp-vectorize", "-fno-unroll-loops", "-DNDEBUG",
@@ -251,6 +252,24 @@ SOLVERS = {"default": [], "minisat": [], "cadical": ["--sat-solver", "cadical"],
            "z3": ["--z3"], "cvc5": ["--cvc5"]}
 
 
+_LOOPS = {}
+
+
+def loops_matching(unit, ob):
+    key = (unit.name, ob["name"])
+    if key not in _LOOPS:
+        cmd = ["cbmc", "-I" + RT] + rt_defs(unit) + [os.path.join(unit.dir, unit.name + ".c"), os.path.join(unit.dir, "entries.c"),
+                                                     os.path.join(RT, "vf_rt.c"), "--function", "run_" + ob["name"], "--show-loops"]
+        rc, out, _ = sh(cmd, timeout=300)
+        ids = re.findall(r"^Loop (\S+):", out, re.M)
+        sel = []
+        for spec in ob["unwindfn"].split(","):
+            pat, _, n = spec.rpartition(":")
+            sel += ["%s:%s" % (i, n) for i in ids if pat in i.rsplit(".", 1)[0]]
+        _LOOPS[key] = sel
+    return _LOOPS[key]
+
+
 def cbmc_cmd(unit, ob, witness, params=None):
     cmd = ["cbmc", "-I" + RT] + rt_defs(unit)
     if params is not None:
@@ -260,8 +279,13 @@ def cbmc_cmd(unit, ob, witness, params=None):
     cmd += [os.path.join(unit.dir, unit.name + ".c"), os.path.join(unit.dir, "entries.c"), os.path.join(RT, "vf_rt.c"),
             "--function", "run_" + ob["name"], "--unwind", ob["unwind"], "--no-malloc-may-fail", "--drop-unused-functions",
             "--object-bits", ob.get("object_bits", "12"), "--trace"]
+    uws = []
     if ob.get("unwindset"):
-        cmd += ["--unwindset", ob["unwindset"]]
+        uws.append(ob["unwindset"])
+    if ob.get("unwindfn"):  # unwindfn=pattern:N,... -> every loop of every function whose name contains the pattern
+        uws += loops_matching(unit, ob)
+    if uws:
+        cmd += ["--unwindset", ",".join(uws)]
     cmd += SOLVERS[ob["solver"]]
     if not witness and (ob.get("checks") or unit.opts.get("checks")) == "min":
         # concurrent units: CBMC's per-dereference pointer checks multiply the formula (out of memory at 6-15 GB);
@@ -300,17 +324,23 @@ def parse_cbmc(out):
     return r
 
 
+QUICK = [True]
+
+
 def expand_params(ob):
     if not ob.get("params"):
         return [None]
     import itertools
     dims = [int(x) for x in ob["params"].split(",")]
     combos = list(itertools.product(*[range(d) for d in dims]))
-    if ob.get("param_limit"):
+    limit = ob.get("param_limit")
+    if QUICK[0] and ob.get("quick_limit"):  # quick tier: a VERIF_SEED-dependent subset; the thorough tier runs all (or param_limit)
+        limit = ob["quick_limit"] if not limit else str(min(int(limit), int(ob["quick_limit"])))
+    if limit:
         import random
         rnd = random.Random(int(os.environ.get("VERIF_SEED", "1")))
         rnd.shuffle(combos)
-        combos = combos[:int(ob["param_limit"])]
+        combos = combos[:int(limit)]
     return combos
 
 
@@ -466,6 +496,7 @@ def main(argv):
         return 0
 
     tiers = ("quick",) if a.tier == "quick" else ("quick", "thorough")
+    QUICK[0] = a.tier == "quick"
     errors, results, validations = [], [], []
     jobs = []
     for u in units:
@@ -525,7 +556,7 @@ def main(argv):
                  "wall_s": round(sum(r["wall_s"] for r in rs), 2), "rss_mb_max": max((r["rss_mb"] or 0) for r in rs),
                  "functions_encoded": u.side["roots"].get(ob["name"], [])[:60], "native_validation": ob.get("native", "")}
         if ob.get("params"):
-            entry["parameter_space"] = ob["params"] + (" (random subset of %s, VERIF_SEED)" % ob["param_limit"] if ob.get("param_limit") else " (all combinations)")
+            entry["parameter_space"] = ob["params"] + (" (%d combinations run: VERIF_SEED-dependent subset)" % len(rs) if (ob.get("param_limit") or (QUICK[0] and ob.get("quick_limit"))) else " (all combinations)")
             entry["sub_samples"] = [{"params": list(r["params"]), "verdict": r["verdict"], "witness": r["witness"], "wall_s": r["wall_s"]} for r in rs[:4]]
         ob_ok = True
         for r in rs:
@@ -628,8 +659,8 @@ def main(argv):
                        "translator_validation": validations, "external_models_used": ext, "inconclusive": inconclusive,
                        "known_findings_hit": [kf["what"] for kf, _ in known_hits]},
           "assumptions": assumptions, "wall_s": round(time.time() - t0, 1), "violations": len(violations)}
-    os.makedirs(os.path.join(VERIF, "evidence"), exist_ok=True)
-    json.dump(ev, open(os.path.join(VERIF, "evidence", pid + ".json"), "w"), indent=1)
+    os.makedirs(EVDIR, exist_ok=True)
+    json.dump(ev, open(os.path.join(EVDIR, pid + ".json"), "w"), indent=1)
     for e in samples:
         print("%-40s %-20s queries=%-4d passed=%-4s reachable=%-4s cpu=%7.1fs rss<=%sMB" % (e["obligation"], e["verdict"], e["queries"], e.get("passed", "-"), e.get("witness_reachable", "-"), e.get("wall_s", 0), e.get("rss_mb_max", "-")))
     if not a.keep:
